@@ -161,6 +161,8 @@ impl StateMachine {
             tracing::trace!("ChonkyBFT replica - Starting view 0, immediately timing out.");
             self.start_timeout(ctx).await?;
         }
+        #[cfg(feature = "verif")]
+        self.verif_observe(crate::verif::Step::Started);
 
         // Main loop.
         loop {
@@ -177,8 +179,12 @@ impl StateMachine {
             // Check for timeout.
             let Some(req) = recv.ok() else {
                 self.start_timeout(ctx).await?;
+                #[cfg(feature = "verif")]
+                self.verif_observe(crate::verif::Step::TimerExpired);
                 continue;
             };
+            #[cfg(feature = "verif")]
+            let verif_msg = req.msg.clone();
 
             // Process the message.
             let now = ctx.now();
@@ -352,6 +358,11 @@ impl StateMachine {
                 }
             };
             metrics::METRICS.message_processing_latency[&label].observe_latency(ctx.now() - now);
+            #[cfg(feature = "verif")]
+            self.verif_observe(crate::verif::Step::Message {
+                msg: &verif_msg,
+                accepted: label.verif_accepted(),
+            });
 
             // Notify network component that the message has been processed.
             // Ignore sending error.
